@@ -1,17 +1,52 @@
-"""Generated modules for the Black-Scholes family (T1 float kernels), twice: Float and Real."""
+"""Generated modules for the Black-Scholes family (T1 float kernels).
+
+  BSF  Float, executable (driver / correspondence)
+  BSR  ℝ, the code's own N (Hull polynomial) and nprime             — parity, digital relations, N symmetry
+  BSP  ℝ, the SAME source text with the normal cdf/pdf abstracted to parameters `Ncdf npdf : ℝ → ℝ`
+       (every call of N / n_vect / norm.cdf becomes `Ncdf`, every n_prime_vect / nprime / norm.pdf becomes `npdf`)
+       — Greeks = derivatives under hypotheses on (Ncdf, npdf); Bachelier (whose cdf is SciPy's, not in the repo).
+       `Props/C05a` proves `BSP.f BSR.N BSR.nprime … = BSR.f …` by unfolding, so BSP is the generated code, not a copy.
+
+Sources: black_scholes_analytic.py (bs_*), black.py (black_* with calculate_d1_d2 inlined), black_shifted.py
+(BlackShifted.value, object attributes as parameters), bachelier.py (Bachelier.value), equity_digital_option.py
+(EquityDigitalOption.value from `t = max(t, 1e-6)` on; the date/curve glue above it is replaced by parameters
+t_raw, df_in, dq_in and must keep its exact text — see _astprep.slice_method).
+"""
 MATH_PY = 'financepy/utils/math.py'
 BSA_PY = 'financepy/models/black_scholes_analytic.py'
+BLACK_PY = 'financepy/models/black.py'
+BSHIFT_PY = 'financepy/models/black_shifted.py'
+BACH_PY = 'financepy/models/bachelier.py'
+DIGI_PY = 'financepy/products/equity/equity_digital_option.py'
 GT_PY = 'financepy/utils/global_types.py'
 GV_PY = 'financepy/utils/global_vars.py'
 
 REAL_IMPORTS = ['Mathlib.Analysis.SpecialFunctions.Pow.Real', 'Mathlib.Analysis.SpecialFunctions.Sqrt',
                 'Mathlib.Analysis.SpecialFunctions.Log.Basic', 'Mathlib.Analysis.SpecialFunctions.Exp']
 
+# codes used for FinDigitalOptionTypes in the generated kernel (the enum's own values are not ints:
+# CASH_OR_NOTHING = (1,)); the harness maps member names to the same codes.
+DIGITAL_CODES = {'FinDigitalOptionTypes.CASH_OR_NOTHING': 1, 'FinDigitalOptionTypes.ASSET_OR_NOTHING': 2}
 
-def prelude(ns, kind, extra_imports=()):
+DIGITAL_DROP = [
+    "if isinstance(value_dt, Date) is False:\n    raise FinError('Valuation date is not a Date')",
+    "if value_dt > self.expiry_dt:\n    raise FinError('Valuation date after expiry date.')",
+    "if discount_curve.value_dt != value_dt:\n    raise FinError('Discount Curve valuation date not same as option value date')",
+    "if dividend_curve.value_dt != value_dt:\n    raise FinError('Dividend Curve valuation date not same as option value date')",
+]
+DIGITAL_SUBST = {
+    '(self.expiry_dt - value_dt) / g_days_in_year': 't_raw',
+    'discount_curve.df(self.expiry_dt)': 'df_in',
+    'dividend_curve.df(self.expiry_dt)': 'dq_in',
+}
+
+
+def prelude(ns, kind, extra_imports=(), variables=''):
     imps = ['FinVerif.Core.Prelude'] + list(extra_imports) + (REAL_IMPORTS if kind == 'real' else [])
     s = ''.join(f'import {i}\n' for i in imps)
     s += '\nset_option linter.unusedVariables false\n\nnamespace FinVerif.Gen.' + ns + '\nopen FinVerif\n\n'
+    if variables:
+        s += variables + '\n\n'
     return s
 
 
@@ -25,27 +60,125 @@ def math_kernels(tr, S, out):
         tr.funcs[nm] = sp
 
 
+def abstract_normal(tr, cdf, pdf, names_cdf, names_pdf):
+    from py2lean import FuncSpec, NUM
+    for nm in names_cdf:
+        tr.funcs[nm] = FuncSpec(nm, cdf, [('x', NUM)], NUM)
+    for nm in names_pdf:
+        tr.funcs[nm] = FuncSpec(nm, pdf, [('x', NUM)], NUM)
+
+
+def bs_kernels(tr, S, out):
+    from py2lean import FuncSpec, INT, NUM, find_function
+    tree = S.parse(BSA_PY)
+    seven = [('s', NUM), ('t', NUM), ('k', NUM), ('r', NUM), ('q', NUM), ('v', NUM), ('option_type_value', INT)]
+    for nm in ['bs_value', 'bs_delta', 'bs_gamma', 'bs_vega', 'bs_theta', 'bs_rho', 'bs_vanna']:
+        sp = FuncSpec(nm, nm, seven, NUM)
+        out.append(tr.function(find_function(tree, nm), sp))
+    sp = FuncSpec('bs_intrinsic', 'bs_intrinsic', seven[:5] + [seven[6]], NUM)
+    out.append(tr.function(find_function(tree, 'bs_intrinsic'), sp))
+
+
+def black_kernels(tr, S, out):
+    """black_value/delta/gamma/vega/theta with `d1, d2 = calculate_d1_d2(fwd, t, k, v)` inlined."""
+    from py2lean import FuncSpec, INT, NUM, find_function
+    from registry._astprep import inline_tuple_call
+    tree = S.parse(BLACK_PY)
+    callee = find_function(tree, 'calculate_d1_d2')
+    six = [('fwd', NUM), ('t', NUM), ('k', NUM), ('r', NUM), ('v', NUM), ('option_type', INT)]
+    for nm in ['black_value', 'black_delta', 'black_gamma', 'black_vega', 'black_theta']:
+        fn = inline_tuple_call(find_function(tree, nm), callee)
+        out.append(tr.function(fn, FuncSpec(nm, nm, six, NUM, doc='calculate_d1_d2 inlined')))
+
+
+def shifted_kernel(tr, S, out):
+    from py2lean import FuncSpec, INT, NUM, find_function
+    tree = S.parse(BSHIFT_PY)
+    sp = FuncSpec('BlackShifted.value', 'black_shifted_value',
+                  [('forward_rate', NUM), ('strike_rate', NUM), ('time_to_expiry', NUM), ('df', NUM),
+                   ('call_or_put', INT)], NUM,
+                  attr_map={'self.shift': ('shift', NUM), 'self.volatility': ('volatility', NUM)},
+                  extra_params=[('shift', NUM), ('volatility', NUM)],
+                  doc='object attributes self.shift, self.volatility as trailing parameters')
+    out.append(tr.function(find_function(tree, 'BlackShifted.value'), sp))
+
+
+def bachelier_kernel(tr, S, out):
+    from py2lean import FuncSpec, INT, NUM, find_function
+    tree = S.parse(BACH_PY)
+    sp = FuncSpec('Bachelier.value', 'bachelier_value',
+                  [('forward_rate', NUM), ('strike_rate', NUM), ('time_to_expiry', NUM), ('df', NUM),
+                   ('call_or_put', INT)], NUM,
+                  attr_map={'self.volatility': ('volatility', NUM)},
+                  extra_params=[('volatility', NUM)],
+                  doc='self.volatility as trailing parameter; norm.cdf / norm.pdf are SciPy\'s')
+    out.append(tr.function(find_function(tree, 'Bachelier.value'), sp))
+
+
+def digital_kernel(tr, S, out):
+    from py2lean import FuncSpec, INT, NUM, find_function
+    from registry._astprep import slice_method
+    tree = S.parse(DIGI_PY)
+    fn = slice_method(find_function(tree, 'EquityDigitalOption.value'), DIGITAL_DROP, DIGITAL_SUBST,
+                      'digital_value')
+    sp = FuncSpec('EquityDigitalOption.value', 'digital_value',
+                  [('s', NUM), ('t_raw', NUM), ('df_in', NUM), ('dq_in', NUM)], NUM,
+                  attr_map={'self.barrier': ('barrier', NUM), 'model.volatility': ('vol', NUM),
+                            'self.call_put_type': ('call_put_type', INT), 'self.digital_type': ('digital_type', INT)},
+                  extra_params=[('barrier', NUM), ('vol', NUM), ('call_put_type', INT), ('digital_type', INT)],
+                  doc='kernel part (after the date/curve glue); t_raw = (expiry - value date)/365, df_in / dq_in = '
+                      'discount / dividend curve df at expiry; digital_type 1 = CASH_OR_NOTHING, 2 = ASSET_OR_NOTHING')
+    out.append(tr.function(fn, sp))
+
+
+def all_consts(S):
+    consts = dict(S.module_consts(MATH_PY))
+    consts.update(S.module_consts(GV_PY))
+    consts.update(S.module_consts(GT_PY))
+    consts.update(DIGITAL_CODES)
+    return consts
+
+
+SOURCES = [BSA_PY, MATH_PY, GT_PY, GV_PY, BLACK_PY, BSHIFT_PY, BACH_PY, DIGI_PY]
+
+
 def build_bs(kind):
+    """BSF / BSR: the code's own N."""
     def build(P, S):
-        from py2lean import FuncSpec, Translator, Dialect, INT, NUM, find_function
-        consts = dict(S.module_consts(MATH_PY))
-        consts.update(S.module_consts(GV_PY))
-        consts.update(S.module_consts(GT_PY))
-        tr = Translator(Dialect(kind), consts)
+        from py2lean import Translator, Dialect
+        tr = Translator(Dialect(kind), all_consts(S))
         out = []
         math_kernels(tr, S, out)
-        tree = S.parse(BSA_PY)
-        seven = [('s', NUM), ('t', NUM), ('k', NUM), ('r', NUM), ('q', NUM), ('v', NUM), ('option_type_value', INT)]
-        for nm in ['bs_value', 'bs_delta', 'bs_gamma', 'bs_vega', 'bs_theta', 'bs_rho', 'bs_vanna']:
-            sp = FuncSpec(nm, nm, seven, NUM)
-            out.append(tr.function(find_function(tree, nm), sp))
-            tr.funcs[nm] = sp
-        sp = FuncSpec('bs_intrinsic', 'bs_intrinsic', seven[:5] + [seven[6]], NUM)
-        out.append(tr.function(find_function(tree, 'bs_intrinsic'), sp))
+        bs_kernels(tr, S, out)
+        black_kernels(tr, S, out)
+        shifted_kernel(tr, S, out)
+        digital_kernel(tr, S, out)
+        extra = ()
+        if kind == 'float':
+            # SciPy's norm.cdf / norm.pdf: executable stand-ins (Cody erfc) from Model/NormCdf.lean
+            abstract_normal(tr, 'FinVerif.normCdf', 'FinVerif.normPdf', ['norm.cdf'], ['norm.pdf'])
+            bachelier_kernel(tr, S, out)
+            extra = ('FinVerif.Model.NormCdf',)
         ns = 'BSF' if kind == 'float' else 'BSR'
-        body = prelude(ns, kind) + '\n'.join(out) + f'\nend FinVerif.Gen.{ns}\n'
-        return [BSA_PY, MATH_PY, GT_PY, GV_PY], body
+        body = prelude(ns, kind, extra) + '\n'.join(out) + f'\nend FinVerif.Gen.{ns}\n'
+        return SOURCES, body
     return build
 
 
-MODULES = {'BSF': build_bs('float'), 'BSR': build_bs('real')}
+def build_bsp(P, S):
+    """BSP: same source, normal cdf/pdf abstracted (section variables become leading explicit arguments of
+    exactly those definitions that use them)."""
+    from py2lean import Translator, Dialect
+    tr = Translator(Dialect('real'), all_consts(S))
+    abstract_normal(tr, 'Ncdf', 'npdf', ['N', 'n_vect', 'norm.cdf'], ['nprime', 'normpdf', 'n_prime_vect', 'norm.pdf'])
+    out = []
+    bs_kernels(tr, S, out)
+    black_kernels(tr, S, out)
+    shifted_kernel(tr, S, out)
+    bachelier_kernel(tr, S, out)
+    digital_kernel(tr, S, out)
+    body = prelude('BSP', 'real', variables='variable (Ncdf npdf : ℝ → ℝ)') + '\n'.join(out) + '\nend FinVerif.Gen.BSP\n'
+    return SOURCES, body
+
+
+MODULES = {'BSF': build_bs('float'), 'BSR': build_bs('real'), 'BSP': build_bsp}
